@@ -35,6 +35,18 @@ def count_after_stall(topo, pipe, victim, stall_step):
     return out
 
 
+def registered(topo, pipe, victim):
+    """the victim is in the client table of each of its synchronized publishers (on a balanced output with a '?' listener
+    frames reach a subscriber the publisher has not heard from yet: being handed a frame does not imply being counted)"""
+    for s in topo.filters[victim]['srcs']:
+        if s['eph']:
+            continue
+        snd = getattr(getattr(pipe.filters.get(s['pub']), 'mq', None), 'sender', None)
+        if snd is None or not any(c[0] == victim for c in list(snd.clients.values())):
+            return False
+    return True
+
+
 def stall_runs(eng, rep, topo, victim, n, steps, tag):
     mx = 0
     for k in range(n):
@@ -48,9 +60,12 @@ def stall_runs(eng, rep, topo, victim, n, steps, tag):
             # handshake completed is not yet a consumer of the publisher (the model's `ahead` counts only publishes that
             # include the client) - run on until the victim has been handed at least one set
             extra = 0
-            while not pipe.delivered[victim] and extra < 400:
+            while not (pipe.delivered[victim] and registered(topo, pipe, victim)) and extra < 400:
                 run_schedule(pipe, rng, 10, p_timeout=0.02, quiet=10 ** 9)
                 extra += 10
+            if not (pipe.delivered[victim] and registered(topo, pipe, victim)):
+                rep.case((topo.name, victim, tag, k), nontrivial=False)     # never became a consumer under this schedule
+                continue
             stall_step = pipe.world.step_no
             pipe.stall(victim)
             run_schedule(pipe, rng, steps, p_timeout=0.02, quiet=400)
@@ -108,9 +123,11 @@ def scenarios(quick):
             (T.chain2(maxseq=5), 'SpecPrompt', B, dict(st, victims=['K']), 'C04_Tight5')] +
            ([] if quick else [
                (T.chain2(maxseq=6), 'SpecPrompt', B, dict(st, victims=['K']), 'C04_Tight5'),
-               (T.chain3(maxseq=6), 'SpecZL', B, dict(st, victims=['A']), 'C04_Tight6')]),
+               (T.chain3(maxseq=6), 'SpecZL', B, dict(st, victims=['A']), 'C04_Tight6'),
+               (T.bal_listen(maxseq=4), 'SpecZL', B, dict(st, victims=['W1']), 'C04_Tight2')]),
         # `requested` not cleared on publish: shows with a second consumer whose requests keep triggering the recomputation
-        mut=[] if quick else [(T.tee(maxseq=9), 'SpecZL', ['no_clear_req'], dict(pq=14, lq=6), dict(st, victims=['B'], sim=(30000, 400)), 'C04_Tight6')],
+        mut=[(T.bal_listen(maxseq=4), 'SpecZL', ['bal_eph_reenables'], B, dict(st, victims=['W1'], run_maxseq=40), 'C04_Tight2')] +
+            ([] if quick else [(T.tee(maxseq=9), 'SpecZL', ['no_clear_req'], dict(pq=14, lq=6), dict(st, victims=['B'], sim=(30000, 400)), 'C04_Tight6')]),
         conf=[(T.chain3(maxseq=6), 'SpecPrompt', 8 if quick else 80, 300, dict(max_faults=1, fault_kinds=['stall'], victims=['K', 'A']))],
         stall=[(T.chain2(maxseq=40), 'K', 6 if quick else 100, 1500, 'sole'),
                (T.tee(maxseq=40), 'B', 6 if quick else 100, 2000, 'one-of-two'),
@@ -121,6 +138,9 @@ def scenarios(quick):
                (T.eph_first(maxseq=40), 'K', 4 if quick else 60, 2000, 'eph-first'),
                # a non-balanced publisher bound to two addresses: the consumer on the other address must still hold it back
                (T.two_addr(maxseq=40), 'K', 4 if quick else 60, 2000, 'two-addresses'),
+               # a worker of a balanced splitter with a '?' listener on its endpoint: the listener's requests must not
+               # pull frames onto the endpoint of the stalled worker
+               (T.balance2_eph(maxseq=60, slow1=False), 'W1', 4 if quick else 60, 2500, 'balanced-listener'),
                # a producer slower than the request interval: the consumer's periodic re-requests must be collapsed, not queued
                (T.chain2(maxseq=60, slow_origin=True), 'K', 6 if quick else 60, 3000, 'slow-producer')],
     )
@@ -140,11 +160,14 @@ def run(ctx):
     for topo, spec, muts, bounds, kw, inv in sc['mut']:
         kw = dict(kw)
         sim = kw.pop('sim', None)
+        rms = kw.pop('run_maxseq', None)        # the schedule is replayed on the same pipeline with a longer stream
+        from .proto import Topo
+        rtopo = Topo.from_dict(dict(topo.to_dict(), maxseq=rms)) if rms else topo
         eng2 = Engine(ctx, rep, ())          # the schedule is judged by the stall counter below, not by the delivery observers
         for mut in muts:
             labels = eng2.mutation_labels(topo, spec, mut, invariant=inv, bounds=bounds, timeout=200 if ctx.quick else 900, sim=sim, **kw)
             if labels:
-                stall_labels(eng, rep, topo, labels, f'counterexample of design mutation {mut}')
+                stall_labels(eng, rep, rtopo, labels, f'counterexample of design mutation {mut}')
     for topo, spec, num, depth, kw in sc['conf']:
         eng.conformance(topo, spec, num, depth, **kw)
     mx = 0
